@@ -337,7 +337,7 @@ def r4_nope_encodable(L, repo):
 def run(L, tier):
     repo = Repo(L.repo)
     L.unit(F)
-    r1_counter(L, repo)
-    r2_fake_drop(L, repo)
-    r3_suppression(L, repo)
-    r4_nope_encodable(L, repo)
+    L.stage(r1_counter, L, repo)
+    L.stage(r2_fake_drop, L, repo)
+    L.stage(r3_suppression, L, repo)
+    L.stage(r4_nope_encodable, L, repo)
